@@ -1,4 +1,5 @@
 import AmrK.Scan
+import AmrK.IterLevel
 /-! # Plotfiles written with ghost cells
 
 AMReX keeps the ghost cells of a MultiFab when a plotfile is written from one that carries them: every FAB on disk is then
@@ -87,6 +88,32 @@ theorem scan_grown (nf f g : Nat) (hf : f < nf) (eps : List (Entry × Bytes)) (p
     exact goodFab_grow nf g q.1 q.2 (hv q hq) (hs q hq))
   rw [h, List.map_map]
   rfl
+
+/-- **Iterating over a level of a plotfile written with `g` ghost cells** yields a permutation of the grown blocks of the level's
+    boxes, however the boxes are spread over the binary files - and the iteration is finite. -/
+theorem iterLevel_grown_perm (nf f g : Nat) (hf : f < nf) (parts : List (List (Entry × Bytes)))
+    (boxes : List (Entry × Bytes)) (hp : boxes.Perm parts.flatten)
+    (hv : ∀ eps ∈ parts, ∀ p ∈ eps, ValidBox p.1)
+    (hs : ∀ eps ∈ parts, ∀ p ∈ eps, p.2.length = cellsOf (grow g p.1) * nf * 8) :
+    (iterLevel ((parts.map fun eps => eps.map fun p => (grow g p.1, p.2)).map (fileOf nf)) f).Perm
+      (boxes.map fun p => block p.2 (cellsOf (grow g p.1)) f) := by
+  have h := iterLevel_perm nf f hf (parts.map fun eps => eps.map fun p => (grow g p.1, p.2))
+    (boxes.map fun p => (grow g p.1, p.2))
+    (by
+      have := hp.map (fun p : Entry × Bytes => (grow g p.1, p.2))
+      rwa [List.map_flatten] at this)
+    (by
+      intro eps heps p hp'
+      simp only [List.mem_map] at heps
+      obtain ⟨eps0, h0, rfl⟩ := heps
+      simp only [List.mem_map] at hp'
+      obtain ⟨q, hq, rfl⟩ := hp'
+      exact goodFab_grow nf g q.1 q.2 (hv eps0 h0 q hq) (hs eps0 h0 q hq))
+  have e : (boxes.map fun p => (grow g p.1, p.2)).map (fun p : Entry × Bytes => block p.2 (cellsOf p.1) f)
+      = boxes.map fun p => block p.2 (cellsOf (grow g p.1)) f := by
+    rw [List.map_map]; rfl
+  rw [e] at h
+  exact h
 
 /-- non-vacuity: the 2 x 3 box (0,0)-(1,2) is valid; grown by one cell it has 4 x 5 = 20 cells -/
 example : ValidBox ⟨[0, 0], [1, 2], "Cell_D_00000", 0⟩ ∧ cellsOf (grow 1 ⟨[0, 0], [1, 2], "Cell_D_00000", 0⟩) = 20 := by
